@@ -383,8 +383,9 @@ def c06_6(ctx):
         cl = facts_at(ctx, fac, c, rf)
         is_const = not (isinstance(b.get('value'), ast.Constant) and b['value'].value is None)
         key = 'constant' if is_const else 'label'
-        ctx.check(clause_implies(cl, lit_cmp(ctx, fac, f'{name} not in {regs}', rf)), f'reject:register-as-{key}', fac.site(c),
-                  f'a {key} named like a register is rejected', describe_facts(cl))
+        from rules.shared import not_a_register
+        ctx.check(not_a_register(cl, name, regs), f'reject:register-as-{key}', fac.site(c),
+                  f'a {key} named like a register (in any letter case, as register operands match) is rejected', describe_facts(cl))
         valid = any(len(cc) == 1 and next(iter(cc))[0] == 'call' and next(iter(cc))[1] == f'is_valid_label({name})' and next(iter(cc))[-1] for cc in cl)
         ctx.check(valid, f'reject:invalid-{key}-name', fac.site(c), f'a {key} must have a valid label name', describe_facts(cl))
         if is_const:
@@ -396,8 +397,11 @@ def c06_6(ctx):
     ok = len(sup) == 1
     if ok:
         cl = facts_at(ctx, gg, sup[0], rg)
-        ok = clause_implies(cl, lit_cmp(ctx, gg, f'{gg.call_params[0].arg} not in self._register_labels', rg))
-    ctx.check(ok, 'reject:register-in-numeric-context', gg.site(), 'a register name used where a number is expected is rejected', 'no dominating register check')
+        from rules.shared import not_a_register, register_name_test
+        ok = not_a_register(cl, gg.call_params[0].arg, 'self._register_labels')
+    ctx.check(ok, 'reject:register-in-numeric-context', gg.site(), 'a register name (in any letter case) used where a number is expected is rejected', 'no dominating register check')
+    from rules.shared import register_name_test
+    register_name_test(ctx)
     # registers handed to the global scope are the model's registers
     gs = ctx.repo.func('bespokeasm.assembler.model.AssemblerModel.global_label_scope')
     cs = [c for c in ast.walk(gs.node) if isinstance(c, ast.Call) and unparse(c.func).endswith('global_scope')]
